@@ -14,10 +14,10 @@ def withTree (S : Schema) (h : String) (k : List DNode → String) : String :=
   | none => "err BadTree"
   | some f => if dumpTok (canon S (heightL f + 1) f) == dumpTok f then k f else "err NonCanonical"
 
-/-- `fx=50,56` — the findings whose repair is in the tree under test (`-` = none) -/
+/-- `fx=120,126` — the findings whose repair is in the tree under test (`-` = none) -/
 def parseFixes (a : String) : Fixes :=
   let l := ((a.drop 3).toString.splitOn ",")
-  { f50 := l.contains "50", f56 := l.contains "56", f58 := l.contains "58" }
+  { f120 := l.contains "120", f126 := l.contains "126", f128 := l.contains "128" }
 
 def handle (op : String) (args : List String) : String :=
   match op, args with
